@@ -168,3 +168,24 @@ theorem execArrG_eq {α} (d : α) (sem : Op → List α → α) (ops : List Op) 
     rw [henv]
 
 end KV.Sig
+
+namespace KV.Sig
+theorem All2.forall_left {α β} {R : α → β → Prop} {P : α → Prop} {xs : List α} {ys : List β}
+    (h : All2 R xs ys) (hp : ∀ x y, R x y → P x) : ∀ x ∈ xs, P x := by
+  induction h with
+  | nil => intro x hx; cases hx
+  | cons hab _ ih =>
+    intro x hx
+    rcases List.mem_cons.mp hx with rfl | hm
+    · exact hp _ _ hab
+    · exact ih x hm
+theorem All2.forall_right {α β} {R : α → β → Prop} {P : β → Prop} {xs : List α} {ys : List β}
+    (h : All2 R xs ys) (hp : ∀ x y, R x y → P y) : ∀ y ∈ ys, P y := by
+  induction h with
+  | nil => intro y hy; cases hy
+  | cons hab _ ih =>
+    intro y hy
+    rcases List.mem_cons.mp hy with rfl | hm
+    · exact hp _ _ hab
+    · exact ih y hm
+end KV.Sig
